@@ -57,6 +57,38 @@ pub fn fault_circuit(n: usize, ands_extra: usize) -> Circuit {
     b.finish(outs)
 }
 
+/// A circuit in which every party has one input wire that is used only as the first operand of AND
+/// gates (a_p) and one that is used only as the second operand (b_p), directly and through free gates.
+pub fn operand_circuit(n: usize) -> Circuit {
+    let inputs = vec![2usize; n];
+    let mut b = Builder::new(&inputs);
+    let mut outs = vec![];
+    for p in 0..n {
+        let g = b.and(b.input(p, 0), b.input((p + 1) % n, 1));
+        outs.push(g);
+    }
+    let t = b.xor(b.input(0, 0), b.input(1, 0));
+    let nt = b.not(t);
+    let k = b.and(nt, b.input(0, 1));
+    outs.push(k);
+    let u = b.xor(b.input(0, 1), b.input(n - 1, 1));
+    let k2 = b.and(b.input(n - 1, 0), u);
+    outs.push(k2);
+    b.finish(outs)
+}
+
+/// Configurations over `operand_circuit` (used by the C03 catalogue only).
+pub fn operand_configs(seed: u64) -> Vec<Config> {
+    use rand::{Rng, SeedableRng};
+    let mut rng = rand_chacha::ChaCha8Rng::seed_from_u64(seed ^ 0x09e7);
+    let mut v = vec![];
+    for (n, p_eval) in [(2usize, 0usize), (2, 1), (3, 1)] {
+        let inputs: Vec<Vec<bool>> = (0..n).map(|_| vec![rng.random(), rng.random()]).collect();
+        v.push(Config { name: format!("n{n}-E{p_eval}-Oall-ops"), circ: operand_circuit(n), inputs, p_eval, p_out: (0..n).collect() });
+    }
+    v
+}
+
 pub fn fault_configs(tier: &str, seed: u64) -> Vec<Config> {
     use rand::{Rng, SeedableRng};
     let mut rng = rand_chacha::ChaCha8Rng::seed_from_u64(seed ^ 0xfa17);
@@ -327,7 +359,12 @@ pub struct World {
 
 impl World {
     pub fn new(tier: &str, seed: u64) -> Self {
-        let cfgs = fault_configs(tier, seed);
+        Self::with_extra(tier, seed, vec![])
+    }
+
+    pub fn with_extra(tier: &str, seed: u64, extra: Vec<Config>) -> Self {
+        let mut cfgs = fault_configs(tier, seed);
+        cfgs.extend(extra);
         let pilots: Vec<Pilot> = cfgs.iter().map(pilot).collect();
         World { cfgs, pilots, cases: vec![] }
     }
